@@ -58,6 +58,7 @@ type Request struct {
 	downloadCallbackInterval time.Duration
 	unReplayableBody         io.ReadCloser
 	unReplayableUpload       bool
+	bodyRewrite              bool // the body is written once more for the same attempt (digest challenge)
 	retryOption              *retryOption
 	bodyReadCloser           io.ReadCloser
 	dumpOptions              *DumpOptions
@@ -249,7 +250,7 @@ func (r *Request) SetFileReader(paramName, filename string, reader io.Reader) *R
 			if rc, ok := reader.(io.ReadCloser); ok {
 				return rc, nil
 			}
-			if r.RetryAttempt > 0 && seekable { // rewind the reader when retry
+			if (r.RetryAttempt > 0 || r.bodyRewrite) && seekable { // rewind the reader when the body is written again
 				if _, err := seeker.Seek(0, io.SeekStart); err != nil {
 					return nil, err
 				}
